@@ -23,7 +23,7 @@ def run(c):
     if c.replay:
         c.drive(drv, ["net", "replay", c.replay, t])
     else:
-        c.drive(drv, ["net", "random", c.seed, c.pick(40, 1500), 12, t])
+        c.drive(drv, ["net", "random", c.seed, c.pick(100, 1500), 12, t])
     ok, total = c.tlc_trace("TraceGossipNet", t, timeout=2400)
     c.evaluations = total
     # measured: runs in which delivery-to-all was owed and checked (>= 3 nodes, >= 1 successful publish)
